@@ -28,5 +28,5 @@ LEVEL_TEXT = ("Per object kind, on the real code, for every outcome of every nat
               "mutex/cond/rwlock/TLS/dl handles destroyed or closed once. Units are shared with C06/C07/C08/C10/C11/C17/C18 (same obligations, run under this property as well). Neutrality of "
               "an arbitrary call sequence is the sum over objects (paper step). Loop-free or loop-contracted units; the library-loader unit is new here.")
 LEVEL_NOTE = ("Covered object kinds: sockets, shared memory (+ lock semaphore), semaphores, shm buffer, mutex/cond/rwlock, TLS keys, thread handles (reference count), hash objects, socket addresses "
-              "from text (addrinfo), directories, errors, library loader. Container pairs (trees, lists, tables, INI) are bounded and run under C12/C15/C16/C18. NOT covered: p_libsys_init/shutdown "
+              "from text (addrinfo), directories, errors, library loader. Container pairs (trees, lists, tables, INI) are bounded and run under C12/C15/C16/C18. Bounded units inside this check (never counted as proved): c18_dir and c18_error (names/messages of a few characters), c11_dispatch (hex loop unwound to its fixed maximum, complete). NOT covered: p_libsys_init/shutdown "
               "as a whole, p_file/p_process, time profiler. Trusted: the ledger models in env/. The input regions of the known findings of C07 (existing segment of size 0) and C08 (existing buffer opened with a smaller size) are excluded from the shared units here; they are decided and reported under C07/C08.")
